@@ -85,6 +85,10 @@ Inductive case :=
             (out : Z + (list Z * list wshare))
 (* DecShare: inl verdict code | inr share *)
 | CDec (id q : Z) (tbl : table) (H X sH x gc : Z) (e : wshare) (v : Z) (out : Z + wshare)
+(* DecShareBatch with the picked scalars of the successful positions:
+   inl code | inr (K, E, D) *)
+| CDecShareBatch (id q : Z) (tbl : table) (H : Z) (X sH : list Z) (x : Z) (gcs : list Z)
+                 (enc : list wshare) (vs : list Z) (out : Z + (list Z * list wshare * list wshare))
 (* VerifyDecShare: verdict code *)
 | CVerDec (id q : Z) (tbl : table) (G X : Z) (e d : wshare) (verdict : Z)
 (* VerifyDecShareBatch: None = ErrDifferentLengths *)
@@ -157,6 +161,15 @@ Definition check_case (c : case) : option Z :=
         match dec_share (hc q tbl) (of_Z q H) (of_Z q X) (of_Z q sH) (of_Z q x) (of_Z q gc) (mk_share q e) (of_Z q v), out with
         | inl vd, inl c => verdict_code vd =? c
         | inr d, inr d' => share_eqb d d'
+        | _, _ => false
+        end in
+      if ok then None else Some id
+  | CDecShareBatch id q tbl H X sH x gcs enc vs out =>
+      let ok :=
+        match dec_share_batch (hc q tbl) (of_Z q H) (zs q X) (zs q sH) (of_Z q x) (zs q gcs) (map (mk_share q) enc) (zs q vs), out with
+        | Some (ROk (K, E, D)), inr (K', E', D') => zlist_eqb (vals K) K' && shares_eqb E E' && shares_eqb D D'
+        | Some (RErr c), inl c' => c =? c'
+        | Some RPanic, inl c' => c' =? PANIC
         | _, _ => false
         end in
       if ok then None else Some id
